@@ -314,6 +314,7 @@ impl Graph {
 
         log::info!("assigning spaces");
         self.assign_spaces_hb();
+        self.remove_orphans();
         self.sort_shortest_distance();
 
         if !self.has_overflows() {
@@ -336,6 +337,7 @@ impl Graph {
                 log::debug!("finished isolating all subgraphs without solution");
                 break overflows;
             }
+            self.remove_orphans();
             self.sort_shortest_distance();
         };
 
@@ -466,6 +468,7 @@ impl Graph {
                 self.nodes.remove(id);
                 self.objects.remove(id);
             }
+            self.parents_invalid = true;
         }
     }
 
@@ -1565,6 +1568,26 @@ mod tests {
         let copy = *graph.objects.keys().find(|id| !ids.contains(id)).unwrap();
         assert_eq!(graph.objects[&ids[0]].offsets[1].object, copy);
         assert_eq!(graph.objects[&ids[1]].offsets[0].object, ids[2]);
+    }
+
+    #[test]
+    fn orphans_left_by_isolation_are_dropped() {
+        // 1 and 2 are both roots of the 32-bit space and 2 is also a child of 1:
+        // isolating the space duplicates 2 and re-points every link to it, leaving
+        // the original without parents but still linking to 3. Sorting used to
+        // panic on 3's stale parent count.
+        let ids = make_ids::<4>();
+        let sizes = [65538, 65534, 65538, 65532];
+        let mut graph = TestGraphBuilder::new(ids, sizes)
+            .add_link(ids[0], ids[1], OffsetLen::Offset32)
+            .add_link(ids[0], ids[2], OffsetLen::Offset32)
+            .add_link(ids[0], ids[3], OffsetLen::Offset24)
+            .add_link(ids[1], ids[2], OffsetLen::Offset16)
+            .add_link(ids[1], ids[3], OffsetLen::Offset16)
+            .add_link(ids[2], ids[3], OffsetLen::Offset16)
+            .build();
+        graph.pack_objects();
+        assert_eq!(graph.find_descendents(ids[0]).len(), graph.nodes.len());
     }
 
     #[test]
